@@ -35,4 +35,31 @@ PROPS = {
         modelled=["modelled, not verified: resolution of attribute names to OIDs (observed from the implementation per case), logging"],
         assumptions=["the subject reaches Validate in the reversed order ParseRDNSequence produces"],
     ),
+    "C03": dict(
+        modules=["Gopki.Props.C03"],
+        theorems=["Rdn.parse_render"],
+        ops=["rdn", "validate"],
+        rule="rdn: all 1-2-attribute subjects over a 12-key alphabet x 6 value shapes with 4 separator variants, random subjects up to 8 attributes, "
+             "a hand-written list of inputs outside the documented grammar (escapes, #hex, malformed), random strings over a 12-symbol alphabet; "
+             "validate: see C09 (here only the clause that validation leaves the subject unchanged); non-trivial = subject of the documented grammar",
+        modelled=["modelled, not verified: strings.Split/TrimSpace (byte-level, ASCII blanks only), regexp ^#[0-9a-fA-F]+$, hex.DecodeString, asn1.Unmarshal of a PrintableString"],
+        assumptions=["YAML/JSON front end delivers the subject string unchanged (exercised by the pki op)"],
+    ),
+    "C04": dict(
+        modules=["Gopki.Props.C04"],
+        theorems=[],
+        ops=["validity"],
+        rule="validity: every calendar day of two years (thorough: 1950-2200) x rotating zone offsets x {from, until, from+duration, from+until}, boundary dates x 9 offsets x 15 durations, "
+             "impossible dates, malformed durations, random combinations; non-trivial = well-formed input with at least one of from/until/duration",
+        modelled=["modelled, not verified: time.ParseInLocation, time.Date normalisation, AddDate (proleptic Gregorian calendar, fixed zone offsets)"],
+        assumptions=["time.Local is a fixed offset (DST zones are not exercised)"],
+    ),
+    "C06": dict(
+        modules=["Gopki.Props.C06"],
+        theorems=["B64.dec_enc"],
+        ops=["raw"],
+        rule="raw: !null, !empty, every payload length 0..1100 (thorough 0..8200) plus 1535, 1536, 4096, 65536 with random bytes, hand-written malformed encodings, single-character mutations; non-trivial = accepted non-empty payload",
+        modelled=["modelled, not verified: encoding/base64 StdEncoding.DecodeString (CR/LF skipping, lenient trailing bits)"],
+        assumptions=[],
+    ),
 }
